@@ -39,16 +39,59 @@ class C05(flow.Spec):
         note = 'layout'
         last = TEMP
         resv_pages = []
-        for _ in range(rng.choice([0, 0, 1, 2, 3, 5])):
-            size = rng.choice([1, 4096, 4097, 8192, rng.randrange(1, 4 * 4096)])
+        pat = rng.random()
+        regions = []          # (pages, frame0 or None)
+        if pat < 0.55:
+            for _ in range(rng.choice([0, 0, 1, 2, 3, 5])):
+                size = rng.choice([1, 4096, 4097, 8192, rng.randrange(1, 4 * 4096)])
+                regions.append([size, rng.randrange(1, 1 << 30)])
+        elif pat < 0.63:
+            # a reservation around the span of one page table (2 MiB), possibly after a small one
+            note = 'big-region'
+            if rng.random() < 0.6:
+                regions.append([rng.choice([4096, 3 * 4096, 17 * 4096]), rng.randrange(1, 1 << 30)])
+            regions.append([rng.choice([(1 << 21) - 4096, 1 << 21, (1 << 21) + 4096, 3 << 20, 1 << 20, (1 << 21) + 1]), rng.randrange(1, 1 << 30)])
+            if rng.random() < 0.4:
+                regions.append([rng.choice([4096, 8192]), rng.randrange(1, 1 << 30)])
+        else:
+            # several regions whose backing frames are chosen adversarially
+            note = 'frames'
+            k = rng.randrange(2, 6)
+            ns = [rng.choice([1, 1, 1, 2, 3]) for _ in range(k)]
+            T = sum(ns)
+            f = rng.randrange(1 << 8, 1 << 30)
+            style = rng.choice(['contiguous', 'reversed', 'collinear-ends', 'collinear-ends', 'random', 'same'])
+            lowidx = []           # index (from the lowest reserved page) of each region's first page
+            acc = 0
+            for n in ns:
+                acc += n
+                lowidx.append(T - acc)
+            for j, n in enumerate(ns):
+                if style == 'contiguous':
+                    fr = f + lowidx[j]
+                elif style == 'reversed':
+                    fr = f + (T - lowidx[j] - n) * 3
+                elif style == 'collinear-ends':
+                    fr = f + lowidx[j] if j in (0, k - 1) else rng.choice([f + lowidx[j] + 1, f + lowidx[j] - 1, rng.randrange(1, 1 << 30), f])
+                elif style == 'same':
+                    fr = f
+                else:
+                    fr = rng.randrange(1, 1 << 30)
+                regions.append([n * 4096 - rng.choice([0, 0, 1, 4095]), fr])
+        for size, fr in regions:
             k = (size + 4095) >> 12
             if rng.random() < 0.97:
-                ops.append([8, rng.randrange(1, 1 << 30), size, rng.choice([P | RW, P | RW | pc.NX, P])])
+                ops.append([8, fr, size, pc.any_leaf_flags(rng) if rng.random() < 0.7 else rng.choice([P | RW, P | RW | pc.NX, P])])
             else:
                 ops.append([16, size])           # reserved but never mapped: setup must fail with ErrInvalidMapping
                 note = 'unmapped-reservation'
             last -= k << 12
-            resv_pages += [(last >> 12) + i for i in range(k)]
+            resv_pages += [(last >> 12) + i for i in range(min(k, 4))] + [(last >> 12) + k - 1]
+        # translation-neutral bits (Accessed, ...) in the boot space's recursive entry and upper-level entries
+        if rng.random() < 0.5:
+            ops.append([18, 0, 3, pc.extra_mask(rng)])
+        if resv_pages and rng.random() < 0.4:
+            ops.append([18, rng.choice(resv_pages), rng.randrange(3), pc.extra_mask(rng)])
         off = rng.choice([KOFF, KOFF, KOFF, KOFF, 0xffff800000100000, 0xffffc00000000000, 0, 0x100000] + ([0xffffffff80000000] if rng.random() < 0.1 else []))
         secs = []
         addr = off + rng.choice([0, 0x100000, 0x100000, 0x200000 - 4096, 0x40000000 - 8192, rng.randrange(1 << 12) << 12])
